@@ -19,6 +19,9 @@ def render(case, c):
                     2: BIG + 'if buf[(x as usize) % 4096] > 0 { "w" } else { "z" }'}[work]
     items = []
     direct = trait = ""
+    gen = p.get("gen", False)
+    G = "<G: Send + Sync + 'static>" if gen else ""
+    garg, gval = (", _g: G", ", 7u8") if gen else ("", "")
     if kind in ("fn", "mod"):
         fns = []
         for k in range(1, depth + 1):
@@ -27,13 +30,13 @@ def render(case, c):
             else:
                 deps, body = f"deps: &(impl Sync{extra})", workbody
             if kind == "fn":
-                fns.append(f"#[::entrait::entrait(pub T{k})]\n{fnkw} f{k}({deps}, x: u64) -> {RT} {{ {body} }}\n")
+                fns.append(f"#[::entrait::entrait(pub T{k})]\n{fnkw} f{k}{G}({deps}, x: u64{garg}) -> {RT} {{ {body} }}\n")
             else:
-                fns.append(f"#[::entrait::entrait(pub T{k})]\npub mod m{k} {{\n    use super::*;\n    pub {fnkw} f{k}({deps}, x: u64) -> {RT} {{ {body} }}\n"
+                fns.append(f"#[::entrait::entrait(pub T{k})]\npub mod m{k} {{\n    use super::*;\n    pub {fnkw} f{k}{G}({deps}, x: u64{garg}) -> {RT} {{ {body} }}\n"
                            f"    pub {fnkw} other{k}(deps: &impl Sync) -> u64 {{ 0 }}\n}}\n")
         items = fns
         path = "m1::f1" if kind == "mod" else "f1"
-        direct, trait = f"{path}(&app, 3)", "T1::f1(&app, 3)"
+        direct, trait = f"{path}(&app, 3{gval})", f"T1::f1(&app, 3{gval})"
         mk = "let app = ::entrait::Impl::new(());"
     elif kind == "trait-self":
         # f1 -> .. -> f(depth-1) -> Leaf::m (hand-written provider on the application)
